@@ -97,7 +97,7 @@ CLAIMS = {
         tech="Lean 4 soundness theorem for a write discipline on an imperative IR + AST-to-IR translator re-run each check + decide over the "
              "regenerated program + fingerprint correspondence"),
     "C04": dict(level=PV, ref="§7 C04",
-        text="Kernel-checked theorems about the model of to_incremental / to_cumulative: toCum_toInc (exact round trip "
+        text="14 kernel-checked theorems, none open, about the model of to_incremental / to_cumulative: toCum_toInc (exact round trip "
              "for every well-formed cumulative triangle: order, dates, metadata, key sets, values and value kinds (key ORDER is preserved in the model only: the implementation builds the dict from a Python set and the harness ignores key order); "
              "Cell becomes CumulativeCell), toInc_toCum (every complete incremental triangle), identity on the target "
              "basis, TriangleError on a broken chain and on key mismatch in either direction, toInc_row_spec "
@@ -153,7 +153,7 @@ CLAIMS = {
         tech="Lean 4 proof (prefix-safety of a parser by per-class lemmas + induction over records) + all-offsets "
              "correspondence"),
     "C07": dict(level=PV, ref="§7 C07",
-        text="Model of triangle_to_dict and of the decoder (object_hook applied bottom-up to every object, "
+        text="39 kernel-checked theorems, none open. Model of triangle_to_dict and of the decoder (object_hook applied bottom-up to every object, "
              "_parse_cell_set, _parse_observation) over a JSON AST. Proved: ISO date round trip for every valid date "
              "1000-9999, typed-kind lemmas, toDict_shape, toDict_shape_strict (ISO dates are exactly YYYY-MM-DD: dateIso_shape, strictIso_unique), spec_slicesOnce / spec_textSpec / spec_loadSpec (Spec bridges), roundtrip_every_route (string, handle, path, dict and the deprecated entry points), fromDict_plain (any AST of that shape, however produced, loads to the described triangle) and "
              "fromDict_toDict : WFjson t -> fromDict (toDict t) = ok (asTyped t) with no further hypotheses, concrete round trips, and witnesses that the stated domain restrictions "
